@@ -278,10 +278,13 @@ impl LanguageServer for Server {
 impl Server {
     fn set_file_content(&mut self, uri: &Url, text: &str) {
         let path = UrlExt::to_file_path(uri);
-        let mut vfs = self.vfs.write().unwrap();
-        let file_id = vfs.assign_or_get_file_id(path);
+        let file_id = self.vfs.write().unwrap().assign_or_get_file_id(path);
         let text = Arc::from(text);
+        // Writing an input waits until every running task has dropped its snapshot, and those
+        // tasks take the vfs lock while holding one. So wait without the vfs lock; once the
+        // write went through no snapshot is left (only this thread creates them).
         self.host.set_file_content(file_id, text);
+        let mut vfs = self.vfs.write().unwrap();
         self.host.set_root_file(&mut *vfs, file_id);
     }
 
